@@ -1,3 +1,51 @@
+"""np.histogram(a, bins=n) as seen by the code under test: the exact definition on symbolic values.
+
+`bins` equal-width bins over [min, max]; bin k holds edge_k <= x < edge_{k+1}, the last bin includes the
+right edge (numpy's convention).  min/max and the bin of every value are found by comparisons, each of
+which forks only when both outcomes are feasible.  For constant data numpy widens the range to
+[x - 1/2, x + 1/2]."""
+from fractions import Fraction as F
+
+import builtins
+
+import numpy as _np
+
 from .. import core
-def histogram(*a, **k):
-    raise core.Abort("unsupported", "histogram model not installed")
+from ..core import SR
+from ..npshim import lift, has_sym
+
+
+def histogram(a, bins=10, range=None, density=None, weights=None):
+    arr = _np.asarray(list(a) if not isinstance(a, _np.ndarray) else a)
+    if arr.dtype != object and not has_sym(arr):
+        return _np.histogram(arr, bins=bins, range=range, density=density, weights=weights)
+    if range is not None or density or weights is not None or not isinstance(bins, (int, _np.integer)):
+        raise core.Abort("unsupported", "np.histogram with range/density/weights/explicit edges")
+    vals = [lift(v) for v in arr.reshape(-1)]
+    n = int(bins)
+    if not vals:
+        raise core.Abort("unsupported", "np.histogram of empty data")
+    mn = mx = vals[0]
+    for v in vals[1:]:
+        if bool(v < mn):
+            mn = v
+        if bool(v > mx):
+            mx = v
+    if bool(mn == mx):
+        mn, mx = mn - F(1, 2), mx + F(1, 2)
+    width = mx - mn
+    edges = _np.empty(n + 1, dtype=object)
+    for k in builtins.range(n + 1):
+        edges[k] = mn + width * F(k, n)
+    edges[n] = mx
+    counts = _np.zeros(n, dtype=int)
+    for v in vals:
+        lo, hi = 0, n          # invariant: edges[lo] <= v < edges[hi]  (hi == n: v <= mx)
+        while hi - lo > 1:
+            mid = (lo + hi) // 2
+            if bool(v < edges[mid]):
+                hi = mid
+            else:
+                lo = mid
+        counts[lo] += 1
+    return counts, edges
